@@ -26,7 +26,7 @@ Proof. exact read_area_exact. Qed.
 Print Assumptions C13_read_area_exact.
 
 Theorem C13_read_area_total : forall m img i a, wf_map m = true ->
-  nth_area m i = Some a -> a_off a + a_size a <= zlen img ->
+  nth_area m i = Some a -> a_off a < zlen img -> a_off a + a_size a <= zlen img ->
   read_area m img i = Ok (sub (a_off a) (a_size a) img).
 Proof. exact read_area_total. Qed.
 Print Assumptions C13_read_area_total.
@@ -51,7 +51,8 @@ Print Assumptions C13_write_area_refuses_large.
 
 (* the checksum covers exactly the static areas in table order *)
 Theorem C13_checksum_static_in_order : forall m img, wf_map m = true ->
-  (forall a, In a (f_areas m) -> static a = true -> a_off a + a_size a <= zlen img) ->
+  (forall a, In a (f_areas m) -> static a = true ->
+     a_off a < zlen img /\ a_off a + a_size a <= zlen img) ->
   checksum_input m img =
     Ok (concat (map (fun a => sub (a_off a) (a_size a) img) (filter static (f_areas m)))).
 Proof. exact checksum_covers_static_in_order. Qed.
